@@ -38,7 +38,7 @@ SIMCHECK = os.path.join(ROOT, 'bin', 'simcheck')
 
 PROPS = {'C10': 'sim.c10_lists', 'C17': 'sim.c17_frame'}
 TIERS = {
-    'quick': {'runs_per_worker': {'C10': 5000, 'C17': 1500}, 'budget_s': 45},
+    'quick': {'runs_per_worker': {'C10': 6000, 'C17': 2500}, 'budget_s': 100},
     'thorough': {'runs_per_worker': {'C10': 10 ** 9, 'C17': 10 ** 9}, 'budget_s': 600},
 }
 EPOCH_RUNS = {'C10': 500, 'C17': 250}
@@ -51,6 +51,10 @@ def load(prop):
     if prop not in PROPS:
         raise core.HarnessError('no simulation for property %s' % prop)
     return importlib.import_module(PROPS[prop])
+
+
+def mod_of(prop):
+    return load(prop)
 
 
 def check_environment():
@@ -519,6 +523,13 @@ def cmd_check(tier, prop):
         raise core.HarnessError('determinism self-test failed for run seeds %s' % bad[:5])
     ev, reported, known_hit = run_batch(prop, tier, batch_seed, workers, runs, budget)
     c = ev['coverage']
+    # an oracle or fault kind that silently stopped firing decides nothing: say so loudly
+    if c['runs'] >= 2000:
+        dead = [k for k in getattr(mod_of(prop), 'MUST_FIRE', []) if not c['faults_fired'].get(k)
+                and not c.get('probes', {}).get(k)]
+        if dead:
+            raise core.HarnessError('these fault kinds / probes never fired in %d runs: %s'
+                                    % (c['runs'], dead))
     print('runs=%d steps=%d distinct_nontrivial=%d wall=%.1fs runs/h=%d' %
           (c['runs'], c['evaluations'], c['distinct_nontrivial'], ev['wall_s'], c['runs_per_hour']))
     for e in known_hit:
@@ -623,6 +634,17 @@ def main(argv=None):
             return 1 if ok else 0
         if cmd == 'selftest-determinism':
             return cmd_selftest_determinism(argv[1], int(argv[2]) if len(argv) > 2 else 400)
+        if cmd == 'selftest-regress':
+            # former harness false alarms: every file under regress/ must run clean
+            check_environment()
+            bad = 0
+            d = os.path.join(ROOT, 'regress')
+            for name in sorted(os.listdir(d)):
+                if name.endswith('.json'):
+                    ok, vj = replay_file(os.path.join(d, name), quiet=True)
+                    print('%-50s %s' % (name, 'STILL-ALARMS' if vj is not None else 'clean'))
+                    bad += vj is not None
+            return 2 if bad else 0
         if cmd == 'selftest-mutants':
             from . import mutants
             return mutants.main(argv[1:])
